@@ -87,7 +87,9 @@ def check_case(case) -> Outcome:
         # every row dropped: an empty Arrow dictionary column no longer carries its categories - not compared
         out.label("excluded:all-rows-dropped")
         return out
-    has_cat = any(f["k"] in ("cat", "C") for t in fc["terms"] for f in t)
+    has_cat = any(f["k"] in ("cat", "C", "ctx") for t in fc["terms"] for f in t)
+    if any(f["k"] == "ctx" for t in fc["terms"] for f in t):
+        out.label("custom-contrasts")
     has_int = any(F.term_degree(t) >= 2 for t in fc["terms"])
     out.nontrivial = has_cat and has_int
     out.label("na:" + case["na_action"], "efr" if case["efr"] else "no-efr")
@@ -117,12 +119,29 @@ def check_case(case) -> Outcome:
     return out
 
 
+# hand-coded contrast matrices (k x (k-1) and square), always with the complete level list of the column
+CUSTOM = [
+    {"k": "ctx", "src": "C(A, contr.custom([[1, 0, 0], [0, 1, 0], [0, 0, 1], [-1, -1, -1]]), levels=['b', 'a', 'd', 'c'])"},
+    {"k": "ctx", "src": "C(A, contr.custom([[1, 2, 0, 0], [0, 1, 1, 0], [3, 0, 1, 0], [1, 1, 1, 2]]), levels=['a', 'b', 'c', 'd'])"},
+    {"k": "ctx", "src": "C(B, contr.custom([[0.5, 1], [-0.5, 1], [0, -2]]), levels=['x', 'y', 'z'])"},
+    {"k": "ctx", "src": "C(B, contr.custom({'lin': [-1, 0, 1], 'quad': [1, -2, 1], 'k': [1, 1, 1]}), levels=['y', 'x', 'z'])"},
+]
+
+
+def _with_custom(fc, pick):
+    if pick is None:
+        return fc
+    cf, how = pick
+    extra = [[cf]] if how == 0 else ([[cf, {"k": "num", "col": "x"}]] if how == 1 else [[cf], [cf, {"k": "num", "col": "y"}]])
+    return {"intercept": fc["intercept"], "terms": F.normalize_terms(fc["terms"] + extra)}
+
+
 def gen(max_rows=10):
     variant = st.tuples(st.sampled_from(OUTPUTS), st.sampled_from(ENTRIES), st.sampled_from(MATS))
     return st.builds(
         lambda fr, fc, efr, na, vs, two: {"frame": fr, "formula": fc, "efr": efr, "na_action": na, "variants": [list(v) for v in vs], "twosided": two},
         F.frame(max_rows=max_rows, nulls=True, index_kinds=("default", "default", "shuffled", "strings"), bool_col=True),
-        F.formulas(num_cols=F.NUM_COLS + ["t"]),
+        st.builds(_with_custom, F.formulas(num_cols=F.NUM_COLS + ["t"]), st.one_of(st.none(), st.none(), st.none(), st.tuples(st.sampled_from(CUSTOM), st.integers(0, 2)))),
         st.booleans(),
         st.sampled_from(["drop", "drop", "ignore"]),
         st.lists(variant, min_size=3, max_size=6, unique=True),
